@@ -186,6 +186,8 @@ def world_for(prop, tier, seed, idx):
 def signature(world, result, probes, mode):
     """Run signature used to count distinct non-trivial runs (see evidence 'rule')."""
     out = result["out"]
+    if result.get("exception"):
+        return ("exception", world["loop"], result["exception"][:60])
     if world["loop"] == "vi":
         losses = out["losses"]["vi"]
         rank = _rank_pattern(losses)
@@ -221,6 +223,8 @@ def _rank_pattern(xs):
 
 def nontrivial(world, result):
     """At least 2 epochs/steps and at least one gradient step."""
+    if result.get("exception"):
+        return False
     n_g = sum(1 for e in result["events"] if e["t"] == "UPDATE")
     if world["loop"] == "vi":
         return len(result["out"]["losses"]["vi"]) >= 2 and n_g >= 1
